@@ -11,6 +11,37 @@ checks = {
  "C16": dict(
    text="All 2^32 words and all 2^32 byte quadruples are decided by the solver on the real BytesFromLowBits/I32FromBytes (bit loops executed with constant trip counts, diamonds merged to ite terms): no bound is left open, so within the trusted base this is a decision for every input, not a sample.",
    design="§5 C16", note=BASE_NOTE + "No assumption on inputs."),
+
+ "C01": dict(
+   text="The real NewCPU(...).Run of each of the twelve variants is executed symbolically on every program skeleton of the general family (ALU/immediate mixes, loops with concrete trip counts, call/return, sub-word traffic, the repository's own programs at size 3 with symbolic data) plus fixed samples of the dependence, memory-dependence, shadow, tail and cache families, with all 31 registers and every memory byte as SMT variables; the final registers and memory words are compared by the solver with a sequential reference interpreter, for all initial states of a skeleton at once.",
+   design="§4, §5", note=BASE_NOTE + "Programs are the generated skeleton families of DESIGN §4 (concrete text and addresses, all data symbolic) on 13 (quick) / 29 (thorough) configurations; debug=false; ascending map-order policy; reference interpreter harness/verifm/ref.go; genuine defects of the unchanged tree are recorded per (configuration, skeleton, failure class, register/word) in known_findings.jsonl (DESIGN §6). "),
+ "C03": dict(
+   text="Branch-shadow family: 8 branch/jump kinds (always taken, data-dependent with both outcomes explored, slow-resolving behind a cache-missing load, j, jal) x 11 shadow bodies (register writes, sw/sb, lw in and out of bounds, jal, div by zero, second branch) x landing code that reads the shadow's targets, on MVP-4..8; the reference never executes the shadow, so any trace (register, memory, error, panic) is a failed assertion decided for all data.",
+   design="§4, §5", note=BASE_NOTE + "Programs are the generated skeleton families of DESIGN §4 (concrete text and addresses, all data symbolic) on 13 (quick) / 29 (thorough) configurations; debug=false; ascending map-order policy; reference interpreter harness/verifm/ref.go; genuine defects of the unchanged tree are recorded per (configuration, skeleton, failure class, register/word) in known_findings.jsonl (DESIGN §6). "),
+ "C04": dict(
+   text="Every dependence pattern (up to register renaming) on 2 instructions from {add, lw miss/hit, sw store-data} over three registers, plus a fixed sample of 40 (600) 3-instruction patterns that also contain data-dependent branches, on all pipelined configurations; final registers and memory compared with the sequential reference for all operand values.",
+   design="§4, §5", note=BASE_NOTE + "Programs are the generated skeleton families of DESIGN §4 (concrete text and addresses, all data symbolic) on 13 (quick) / 29 (thorough) configurations; debug=false; ascending map-order policy; reference interpreter harness/verifm/ref.go; genuine defects of the unchanged tree are recorded per (configuration, skeleton, failure class, register/word) in known_findings.jsonl (DESIGN §6). "),
+ "C05": dict(
+   text="Aligned byte/half/word load/store sequences: first-touch offsets in two lines, overlapping fills of the first-miss-keyed lines of MVP-3..6, write-miss/read-neighbour, dirty data at exit, and eviction depth (17-20 distinct 64-byte lines over a 1 KB cache; 33-34 128-byte lines for MVP-8) with a dirty victim that is reloaded; every loaded value (through its register) and the whole final memory are compared with a flat-memory reference for all data.",
+   design="§4, §5", note=BASE_NOTE + "Programs are the generated skeleton families of DESIGN §4 (concrete text and addresses, all data symbolic) on 13 (quick) / 29 (thorough) configurations; debug=false; ascending map-order policy; reference interpreter harness/verifm/ref.go; genuine defects of the unchanged tree are recorded per (configuration, skeleton, failure class, register/word) in known_findings.jsonl (DESIGN §6). "),
+ "C06": dict(
+   text="The MSI invariants of the statement are asserted at EVERY iteration of CPU.Run of MVP-7.0/7.1/8 (per-iteration hook in the regenerated instrumented copy of cpu.go) on load/store skeletons with 1-4 cores: single Modified owner excluding Shared copies; a Shared L1 line byte-identical to memory/L3 (solver-decided for all data); L1 residency iff state != Invalid outside transfers in progress; no duplicate, aligned, full-size lines; no protocol panic (negative lock counters, invalid state).",
+   design="§5 C06", note=BASE_NOTE + "Programs are the generated skeleton families of DESIGN §4 (concrete text and addresses, all data symbolic) on 13 (quick) / 29 (thorough) configurations; debug=false; ascending map-order policy; reference interpreter harness/verifm/ref.go; genuine defects of the unchanged tree are recorded per (configuration, skeleton, failure class, register/word) in known_findings.jsonl (DESIGN §6). " + "Schedules are those the pipeline induces on the skeletons; the bounded-exhaustive cache-controller rig of the first design was not built."),
+ "C07": dict(
+   text="Termination obligations on every machine-level run of the error programs, the general family and fixed samples of every other family on all configurations: no Go panic, Run's loop iterations and the returned cycles within 4*(executed+2)*309 (a tick in the instrumented Run loops aborts the run, so a hang is a finding instead of a blocked checker), ISA-defined errors (division by zero, undefined label) returned as an error value.",
+   design="§4, §5", note=BASE_NOTE + "Programs are the generated skeleton families of DESIGN §4 (concrete text and addresses, all data symbolic) on 13 (quick) / 29 (thorough) configurations; debug=false; ascending map-order policy; reference interpreter harness/verifm/ref.go; genuine defects of the unchanged tree are recorded per (configuration, skeleton, failure class, register/word) in known_findings.jsonl (DESIGN §6). "),
+ "C08": dict(
+   text="Relational symbolic runs on one input that must agree on cycles, every register and every memory word: (D1) the same machine under two Go-map iteration-order policies of the executor (ascending vs descending / insertion / reverse), (D2) two fresh machines back to back with every written package-level variable symbolic, (D3) one parsed Application run on machine A then on a fresh machine B versus B on a freshly parsed program.",
+   design="§5 C08", note=BASE_NOTE + "Programs are the generated skeleton families of DESIGN §4 (concrete text and addresses, all data symbolic) on 13 (quick) / 29 (thorough) configurations; debug=false; ascending map-order policy; reference interpreter harness/verifm/ref.go; genuine defects of the unchanged tree are recorded per (configuration, skeleton, failure class, register/word) in known_findings.jsonl (DESIGN §6). " + "Goroutines run cooperatively in the engine (no preemption); only four order policies; other processes are covered only by the absence of unmodelled external calls."),
+ "C09": dict(
+   text="Tail family: 3 bodies x 10 tails (lw miss/hit, sw miss/hit, lw+use, sw+sw, lb+sb, mul, ALU chain, li) placed immediately before ret and before the fall-through end, on MVP-4..8; registers and memory compared with the sequential reference for all data.",
+   design="§4, §5", note=BASE_NOTE + "Programs are the generated skeleton families of DESIGN §4 (concrete text and addresses, all data symbolic) on 13 (quick) / 29 (thorough) configurations; debug=false; ascending map-order policy; reference interpreter harness/verifm/ref.go; genuine defects of the unchanged tree are recorded per (configuration, skeleton, failure class, register/word) in known_findings.jsonl (DESIGN §6). "),
+ "C10": dict(
+   text="Store->load, load->store and store->store pairs on the same byte/half/word/line at distance 1..2 (1..4), cold and warm lines, independent address registers holding the same address, partial overlaps, chains, on MVP-4..8; loaded values (through registers) and final memory compared with the sequential reference for all data.",
+   design="§4, §5", note=BASE_NOTE + "Programs are the generated skeleton families of DESIGN §4 (concrete text and addresses, all data symbolic) on 13 (quick) / 29 (thorough) configurations; debug=false; ascending map-order policy; reference interpreter harness/verifm/ref.go; genuine defects of the unchanged tree are recorded per (configuration, skeleton, failure class, register/word) in known_findings.jsonl (DESIGN §6). "),
+ "C12": dict(
+   text="On every machine-level run of the general, tail, memory-dependence and cache samples: MVP-1's returned count equals the analytic latency sum over the reference trace (fetch 309 + decode 1 + load 309 + execute 1|50 + write-back 1|309, none for branches and the final ret), MVP-2 is not slower than that sum, every variant returns a positive count that is at least executed/width; per program path the count is a concrete number in the symbolic run (value independence is observed as the absence of extra engine paths).",
+   design="§4, §5", note=BASE_NOTE + "Programs are the generated skeleton families of DESIGN §4 (concrete text and addresses, all data symbolic) on 13 (quick) / 29 (thorough) configurations; debug=false; ascending map-order policy; reference interpreter harness/verifm/ref.go; genuine defects of the unchanged tree are recorded per (configuration, skeleton, failure class, register/word) in known_findings.jsonl (DESIGN §6). " + "The two-run value-independence harness of the first design was not built."),
  "C11": dict(
    text="risc.Parse is executed on strings whose bytes are SMT variables: totality for '<mnemonic> ' + every length 0..n of arbitrary ASCII bytes for all 45 mnemonics, mnemonic-free lines, load/store operand prefixes and two-line inputs (no panic; an error means no program; accepted text has as many instructions as instruction lines), the operand parsers alone, and 2-3 line programs whose indentation, mnemonic case, separators, comments, signs and decimal digits are symbolic, with decoded registers/immediates/label addresses probed through the instruction API. Positions of separators are enumerated by solver-decided forks, not sampled.",
    design="§5 C11", note=BASE_NOTE + "Bytes < 0x80; engine models of strings.TrimSpace/Split/Index/IndexRune/ToLower and strconv.ParseInt(base 10) over byte sequences (trusted, DESIGN §2.4); bounded input lengths."),
